@@ -2,83 +2,40 @@
 the public constructors (`operator/single/{pauli,rotate,swap}.rs`, `operator/mod.rs`).
 (split out of GenRegs2.lean so that an equality that no longer holds blocks only the properties that rely on it)
 -/
-import Qvnt.Lemmas.GenH
-
-set_option linter.unusedSectionVars false
-
-namespace Qvnt.Gen2
-open Qvnt Qvnt.Gen
-
-variable {R : Type}
-
-/-! ### the public constructors (`operator/single/{pauli,rotate,swap}.rs`, `operator/mod.rs`) -/
-section ctors
-variable [Add R] [Sub R] [Mul R] [Div R] [Neg R] [Zero R] [One R] [Consts R] [Trig R] [Rs.AngleConsts R]
-
-theorem pauli_x_eq (a : Nat) : pauli_x (R := R) a = SingleOp.ofAtom (.x a) := rfl
-theorem pauli_y_eq (a : Nat) : pauli_y (R := R) a = SingleOp.ofAtom (.y a (yIPow a)) := by
-  simp [pauli_y, single_from, y_new_eq', SingleOp.ofAtom]
-theorem pauli_z_eq (a : Nat) : pauli_z (R := R) a = SingleOp.ofAtom (.z a) := rfl
-theorem pauli_s_eq (a : Nat) : pauli_s (R := R) a = SingleOp.ofAtom (.s a false) := rfl
-theorem pauli_t_eq (a : Nat) : pauli_t (R := R) a = SingleOp.ofAtom (.t a false) := rfl
-
-theorem checked_eq (g : Atom R) :
-    (if Atom.isValid g then some (single_from g) else none) = SingleOp.checked g := by
-  unfold SingleOp.checked single_from SingleOp.ofAtom
-  cases Atom.isValid g <;> rfl
-
-theorem rotate_rx_eq (a : Nat) (θ : R) : rotate_rx a θ = SingleOp.checked (.rx a (halfPhaseDiv θ)) := checked_eq _
-theorem rotate_ry_eq (a : Nat) (θ : R) : rotate_ry a θ = SingleOp.checked (.ry a (halfPhaseDiv θ)) := checked_eq _
-theorem rotate_rz_eq (a : Nat) (θ : R) : rotate_rz a θ = SingleOp.checked (.rz a (halfPhaseDiv θ)) := checked_eq _
-theorem rotate_rxx_eq (a : Nat) (θ : R) : rotate_rxx a θ = SingleOp.checked (.rxx a (halfPhaseMul θ)) := checked_eq _
-theorem rotate_ryy_eq (a : Nat) (θ : R) : rotate_ryy a θ = SingleOp.checked (.ryy a (halfPhaseDiv θ)) := checked_eq _
-theorem rotate_rzz_eq (a : Nat) (θ : R) : rotate_rzz a θ = SingleOp.checked (.rzz a (halfPhaseDiv θ)) := checked_eq _
-theorem swapmod_swap_eq (a : Nat) : swapmod_swap (R := R) a = SingleOp.checked (.swap a) := checked_eq _
-theorem swapmod_sqrt_swap_eq (a : Nat) : swapmod_sqrt_swap (R := R) a = SingleOp.checked (.sqrtSwap a false) := checked_eq _
-theorem swapmod_i_swap_eq (a : Nat) : swapmod_i_swap (R := R) a = SingleOp.checked (.iSwap a false) := checked_eq _
-theorem swapmod_sqrt_i_swap_eq (a : Nat) : swapmod_sqrt_i_swap (R := R) a = SingleOp.checked (.sqrtISwap a false) := checked_eq _
-
-theorem bind_some_map {α β : Type} (o : Option α) (f : α → β) : (o.bind fun u => some (f u)) = o.map f := by
-  cases o <;> rfl
-
-theorem op_id_eq : op_id (R := R) = Op.id := rfl
-theorem op_x_eq (a : Nat) : op_x (R := R) a = Op.x a := rfl
-theorem op_y_eq (a : Nat) : op_y (R := R) a = Op.y a := by simp [op_y, Op.y, pauli_y_eq]
-theorem op_z_eq (a : Nat) : op_z (R := R) a = Op.z a := rfl
-theorem op_s_eq (a : Nat) : op_s (R := R) a = Op.s a := rfl
-theorem op_t_eq (a : Nat) : op_t (R := R) a = Op.t a := rfl
-theorem op_rx_eq (θ : R) (a : Nat) : op_rx θ a = Op.rx (halfPhaseDiv θ) a := by
-  simp [op_rx, Op.rx, Op.ofChecked, rotate_rx_eq, bind_some_map]
-theorem op_ry_eq (θ : R) (a : Nat) : op_ry θ a = Op.ry (halfPhaseDiv θ) a := by
-  simp [op_ry, Op.ry, Op.ofChecked, rotate_ry_eq, bind_some_map]
-theorem op_rz_eq (θ : R) (a : Nat) : op_rz θ a = Op.rz (halfPhaseDiv θ) a := by
-  simp [op_rz, Op.rz, Op.ofChecked, rotate_rz_eq, bind_some_map]
-theorem op_rxx_eq (θ : R) (a : Nat) : op_rxx θ a = Op.rxx (halfPhaseMul θ) a := by
-  simp [op_rxx, Op.rxx, Op.ofChecked, rotate_rxx_eq, bind_some_map]
-theorem op_ryy_eq (θ : R) (a : Nat) : op_ryy θ a = Op.ryy (halfPhaseDiv θ) a := by
-  simp [op_ryy, Op.ryy, Op.ofChecked, rotate_ryy_eq, bind_some_map]
-theorem op_rzz_eq (θ : R) (a : Nat) : op_rzz θ a = Op.rzz (halfPhaseDiv θ) a := by
-  simp [op_rzz, Op.rzz, Op.ofChecked, rotate_rzz_eq, bind_some_map]
-theorem op_swap_eq (a : Nat) : op_swap (R := R) a = Op.swap a := by
-  simp [op_swap, Op.swap, Op.ofChecked, swapmod_swap_eq, bind_some_map]
-theorem op_sqrt_swap_eq (a : Nat) : op_sqrt_swap (R := R) a = Op.sqrtSwap a := by
-  simp [op_sqrt_swap, Op.sqrtSwap, Op.ofChecked, swapmod_sqrt_swap_eq, bind_some_map]
-theorem op_i_swap_eq (a : Nat) : op_i_swap (R := R) a = Op.iSwap a := by
-  simp [op_i_swap, Op.iSwap, Op.ofChecked, swapmod_i_swap_eq, bind_some_map]
-theorem op_sqrt_i_swap_eq (a : Nat) : op_sqrt_i_swap (R := R) a = Op.sqrtISwap a := by
-  simp [op_sqrt_i_swap, Op.sqrtISwap, Op.ofChecked, swapmod_sqrt_i_swap_eq, bind_some_map]
-theorem op_h_eq (a : Nat) : op_h (R := R) a = Op.h a := by
-  simp [op_h, h_h_eq]
-theorem op_u1_eq (lam : R) (a : Nat) : op_u1 lam a = Op.u1 (halfPhaseDiv lam) a := by
-  simp [op_u1, Op.u1, op_rz_eq]
-theorem op_u3_eq (the phi lam : R) (a : Nat) :
-    op_u3 the phi lam a = Op.u3 (halfPhaseDiv the) (halfPhaseDiv phi) (halfPhaseDiv lam) a := by
-  simp only [op_u3, Op.u3, op_rz_eq, op_ry_eq]
-  cases Op.rz (halfPhaseDiv lam) a <;> cases Op.ry (halfPhaseDiv the) a <;> cases Op.rz (halfPhaseDiv phi) a <;> rfl
-theorem op_u2_eq (phi lam : R) (a : Nat) :
-    op_u2 phi lam a = Op.u2 (halfPhaseDiv Rs.AngleConsts.fracPi2) (halfPhaseDiv phi) (halfPhaseDiv lam) a := by
-  simp only [op_u2, Op.u2, Op.u3, op_rz_eq, op_ry_eq]
-  cases Op.rz (halfPhaseDiv lam) a <;> cases Op.ry (halfPhaseDiv (Rs.AngleConsts.fracPi2 : R)) a <;> cases Op.rz (halfPhaseDiv phi) a <;> rfl
-
-end ctors
-end Qvnt.Gen2
+import Qvnt.Lemmas.GenCtors.pauli_x_eq
+import Qvnt.Lemmas.GenCtors.pauli_y_eq
+import Qvnt.Lemmas.GenCtors.pauli_z_eq
+import Qvnt.Lemmas.GenCtors.pauli_s_eq
+import Qvnt.Lemmas.GenCtors.pauli_t_eq
+import Qvnt.Lemmas.GenCtors.checked_eq
+import Qvnt.Lemmas.GenCtors.rotate_rx_eq
+import Qvnt.Lemmas.GenCtors.rotate_ry_eq
+import Qvnt.Lemmas.GenCtors.rotate_rz_eq
+import Qvnt.Lemmas.GenCtors.rotate_rxx_eq
+import Qvnt.Lemmas.GenCtors.rotate_ryy_eq
+import Qvnt.Lemmas.GenCtors.rotate_rzz_eq
+import Qvnt.Lemmas.GenCtors.swapmod_swap_eq
+import Qvnt.Lemmas.GenCtors.swapmod_sqrt_swap_eq
+import Qvnt.Lemmas.GenCtors.swapmod_i_swap_eq
+import Qvnt.Lemmas.GenCtors.swapmod_sqrt_i_swap_eq
+import Qvnt.Lemmas.GenCtors.bind_some_map
+import Qvnt.Lemmas.GenCtors.op_id_eq
+import Qvnt.Lemmas.GenCtors.op_x_eq
+import Qvnt.Lemmas.GenCtors.op_y_eq
+import Qvnt.Lemmas.GenCtors.op_z_eq
+import Qvnt.Lemmas.GenCtors.op_s_eq
+import Qvnt.Lemmas.GenCtors.op_t_eq
+import Qvnt.Lemmas.GenCtors.op_rx_eq
+import Qvnt.Lemmas.GenCtors.op_ry_eq
+import Qvnt.Lemmas.GenCtors.op_rz_eq
+import Qvnt.Lemmas.GenCtors.op_rxx_eq
+import Qvnt.Lemmas.GenCtors.op_ryy_eq
+import Qvnt.Lemmas.GenCtors.op_rzz_eq
+import Qvnt.Lemmas.GenCtors.op_swap_eq
+import Qvnt.Lemmas.GenCtors.op_sqrt_swap_eq
+import Qvnt.Lemmas.GenCtors.op_i_swap_eq
+import Qvnt.Lemmas.GenCtors.op_sqrt_i_swap_eq
+import Qvnt.Lemmas.GenCtors.op_h_eq
+import Qvnt.Lemmas.GenCtors.op_u1_eq
+import Qvnt.Lemmas.GenCtors.op_u3_eq
+import Qvnt.Lemmas.GenCtors.op_u2_eq
